@@ -126,7 +126,7 @@ def predicates(chk, F):
             s = H.scalar_of(outs[0].value) if len(outs) == 1 and outs[0].kind == 'return' else None
             if s is not None and s.term[0] == 'c':
                 consts[k.split('::')[-1]] = s.term[1]
-    chk.floor('controller_number_constants', 73, len(consts))
+    chk.floor('controller_number_constants', 66, len(consts))
     npairs = 0
     for name, v in sorted(consts.items()):
         if name.endswith('_LSB') and name[:-4] in consts and consts[name[:-4]] < 32:
@@ -195,7 +195,7 @@ def run(tier, cmd):
             r = guarded(chk, '%s/transparent/%s/%s' % (PID, cfg, which), 'identity row', lambda F=F, which=which: identity_rows(chk, F, which))
             n += r or 0
         if cfg == 'K1':
-            chk.floor('identity_cells_K1', 204, n)
+            chk.floor('identity_cells_K1', 180, n)
         preds = guarded(chk, '%s/predicates/%s' % (PID, cfg), 'predicate true-set', lambda F=F: predicates(chk, F)) or {}
         guarded(chk, '%s/siblings/%s' % (PID, cfg), 'dispatch set equals predicate true-set', lambda F=F: siblings(chk, F, preds))
     return chk.finish()
